@@ -498,6 +498,36 @@ fn main_random(budget: u64) {
             }
         }
     }
+    // records whose address range touches the ends of the address space (or wraps): every record kind x (address, size)
+    {
+        let edges: [(&str, &str); 11] = [("0", "0"), ("0", "1"), ("ffffffffffffffff", "0"), ("ffffffffffffffff", "1"), ("ffffffffffffffff", "2"), ("fffffffffffffff0", "10"),
+            ("fffffffffffffff0", "11"), ("8000000000000000", "8000000000000000"), ("1", "ffffffffffffffff"), ("0", "ffffffffffffffff"), ("fffffffffffffffe", "ffffffff")];
+        for (a, sz) in edges {
+            let s32 = if sz.len() > 8 { "ffffffff" } else { sz };
+            let files = [
+                format!("FUNC {a} {sz} 0 f\n{a} {sz} 1 0\n"),
+                format!("FUNC 10 10 0 f\n{a} {sz} 1 0\n"),
+                format!("PUBLIC {a} 0 p\nPUBLIC 10 0 q\n"),
+                format!("STACK CFI INIT {a} {sz} .cfa: $rsp 8 + .ra: .cfa 8 - ^\nSTACK CFI {a} .cfa: $rsp 16 +\n"),
+                format!("STACK CFI INIT 10 10 .cfa: $rsp 8 + .ra: .cfa 8 - ^\nSTACK CFI {a} .cfa: $rsp 16 +\n"),
+                format!("STACK WIN 4 {a} {s32} 0 0 0 0 0 0 1 $eip 4 + ^ =\nSTACK WIN 4 10 10 0 0 0 0 0 0 1 $eip 4 + ^ =\n"),
+                format!("STACK WIN 0 {a} {s32} 0 0 0 0 0 0 0 1\n"),
+                format!("FILE 0 a.c\nINLINE_ORIGIN 0 i\nFUNC 10 10 0 f\nINLINE 0 1 0 0 {a} {sz}\n10 10 1 0\n"),
+            ];
+            for f in files {
+                let mut data: Vec<u8> = b"MODULE Linux x86_64 000 a\n".to_vec();
+                data.extend_from_slice(f.as_bytes());
+                let half = data.len() / 2;
+                for mode in 0..3 {
+                    id += 1;
+                    let mut step = 0;
+                    let sched: Box<dyn FnMut(usize, usize) -> usize> = match mode { 0 => Box::new(|_r, o| o), 1 => Box::new(|_r, _o| 1),
+                        _ => Box::new(move |_r, _o| { step += 1; if step == 1 { half } else { usize::MAX } }) };
+                    run_one(&log, id, &data, false, 40, sched);
+                }
+            }
+        }
+    }
     // names whose length sits around 4 KiB with a multi-byte character straddling each nearby byte offset
     for pad in 4088usize..=4100 {
         for rec in ["FUNC 10 10 0 ", "PUBLIC 10 0 ", "FILE 1 ", "INLINE_ORIGIN 1 "] {
